@@ -156,13 +156,16 @@ def parse_template(lines):
             segs.append(('macro', parts[1], parts[2]))
             i += 1
             continue
-        if s.startswith('//@fn') or s.startswith('//@block'):
+        if s.startswith('//@fn') or s.startswith('//@block') or s.startswith('//@closure'):
             if cur:
                 segs.append(('text', cur))
                 cur = []
             if s.startswith('//@fn'):
                 m = re.match(r'^//@fn\s+(\S+)\s+(.*)$', s)
                 spec = FnSpec('fn', m.group(1), parse_target(m.group(2)))
+            elif s.startswith('//@closure'):
+                m = re.match(r'^//@closure\s+(\S+)\s+(.*?)\s+(closure)\s+(\d+)\s+as\s+(.*)$', s)
+                spec = FnSpec('block', m.group(1), parse_target(m.group(2)), (int(m.group(4)), m.group(5), m.group(3)))
             else:
                 m = re.match(r'^//@block\s+(\S+)\s+(.*?)\s+(loop|match)\s+(\d+)\s+as\s+(.*)$', s)
                 spec = FnSpec('block', m.group(1), parse_target(m.group(2)), (int(m.group(4)), m.group(5), m.group(3)))
@@ -328,6 +331,17 @@ R4_RULES = [
     ('R11-eta', r'\.\s*map_err\s*\(\s*(?P<c>[A-Z]\w*::[A-Z]\w*)\s*\)', r'.map_err(|e| \g<c>(e))', None),
     ('R4-map-unwrap', r'(?P<e>\b\w+)\s*\.\s*map\s*\(\s*\|\s*x\s*\|\s*x\s*\.\s*unwrap\s*\(\s*\)\s*\)', r'vx_map_unwrap(\g<e>)', None),
     ('R4-oneshot-await', r'\breceiver\s*\.\s*await', r'receiver.vx_recv().await', None),
+    ('R4-get-prefix', r'\.\s*get\s*\(\s*\.\.\s*(?P<n>\d+)\s*\)', r'.vx_get_prefix(\g<n>)', None),
+    ('R4-range-index', r'(?P<amp>&\s*)?(?P<e>\b[a-z_][A-Za-z0-9_]*(?:\.[a-z0-9_]+)*)\s*\[\s*(?P<lo>\d*)\s*\.\.\s*(?P<hi>\d*)\s*\]', None, 'range'),
+    ('R4-try-into', r'\.\s*try_into\s*\(\s*\)', r'.vx_try_into()', None),
+    ('R3-wild-closure', r'\|\s*_\s*\|', r'|_e|', None),
+    ('R4-concat2', r'\[\s*(?P<a>[\w\.]+)\s*,\s*(?P<b>[\w\.]+)\s*\]\s*\.\s*concat\s*\(\s*\)', r'vx_concat2(\g<a>, \g<b>)', None),
+    ('R4-drain-all', r'(?P<e>%s)\s*\.\s*drain\s*\(\s*\.\.\s*\)\s*\.\s*collect\s*\(\s*\)' % _E, r'vx_drain_all(&mut \g<e>)', None),
+    ('R4-unzip', r'(?P<e>%s)\s*\.\s*iter\s*\(\s*\)\s*\.\s*cloned\s*\(\s*\)\s*\.\s*unzip\s*\(\s*\)' % _E, r'vx_unzip(&\g<e>)', None),
+    ('R4-zip-collect', r'(?P<a>\b\w+)\s*\.\s*into_iter\s*\(\s*\)\s*\.\s*zip\s*\(\s*(?P<b>\w+)\s*\.\s*into_iter\s*\(\s*\)\s*\)\s*\.\s*collect\s*\(\s*\)', r'vx_zip_collect(\g<a>, \g<b>)', None),
+    ('R4-pin', r'tokio\s*::\s*pin\s*!\s*\(\s*(?P<x>\w+)\s*\)\s*;', r'let mut \g<x> = vx_pin(\g<x>);', None),
+    ('R4-deadline', r'Instant\s*::\s*now\s*\(\s*\)\s*\+\s*Duration\s*::\s*from_millis\s*\(\s*(?P<e>[^()]*)\s*\)', r'vx_deadline(\g<e>)', None),
+    ('R4-bench-sample-ids', r'self\s*\.\s*current_batch\s*\.\s*iter\s*\(\s*\)\s*\.\s*filter\s*\((?:[^;]*?)\)\s*\.\s*filter_map\s*\((?:[^;]*?)\)\s*\.\s*collect\s*\(\s*\)', r'vx_bench_sample_ids(&self.current_batch)', None),
     ('R4-retain-ge', r'\.\s*retain\s*\(\s*\|\s*k\s*,\s*_\s*\|\s*k\s*>=\s*(?P<r>\w+)\s*\)', r'.vx_retain_keys_ge(\g<r>)', None),
     ('R4-get-map-or-else-stake', r'(?P<e>%s)\s*\.\s*get\s*\(\s*(?P<k>\w+)\s*\)\s*\.\s*map_or_else\s*\(\s*\|\s*\|\s*0\s*,\s*\|\s*x\s*\|\s*x\s*\.\s*stake\s*\)' % _E,
      r'(match \g<e>.get(\g<k>) { None => 0, Some(x) => x.stake })', None),
@@ -661,11 +675,18 @@ class FnEmitter:
 
         # --- R4 idioms (regex on the original text, located as edits)
         text = src[body_src_a:body_src_b]
-        for (rule, pat, repl, _) in R4_RULES:
+        for (rule, pat, repl, kind_) in R4_RULES:
             for m in re.finditer(pat, text):
                 a0 = body_src_a + m.start()
                 b0 = body_src_a + m.end()
-                edits.append(Edit(a0, b0, m.expand(repl), rule=rule))
+                if kind_ == 'range':
+                    lo = m.group('lo') or '0'
+                    hi = m.group('hi')
+                    e_ = m.group('e')
+                    new_txt = 'vx_range(&%s, %s, %s)' % (e_, lo, hi) if hi else 'vx_range_from(&%s, %s)' % (e_, lo)
+                else:
+                    new_txt = m.expand(repl)
+                edits.append(Edit(a0, b0, new_txt, rule=rule))
                 self.fire(rule, re.sub(r'\s+', ' ', m.group(0)))
         return edits
 
@@ -886,6 +907,22 @@ class FnEmitter:
                 k += item.body_open
                 c += item.body_open
                 first = k if label is None else label + item.body_open
+            elif kind_ == 'closure':
+                # n-th closure `|params| body` that is the (first) argument of a call: `( |..| BODY )`
+                cs_ = [z for z in range(item.body_open, item.body_close) if toks[z].text == '|' and toks[z - 1].text == '(']
+                if self.benchmark is False:
+                    # closures inside #[cfg(feature = "benchmark")] statements do not exist in this configuration
+                    pass
+                if n_ > len(cs_):
+                    raise GenError('lost anchor: closure %d for lifted block %s' % (n_, spec.qname), spec.qname)
+                z = cs_[n_ - 1]
+                call_open = z - 1
+                call_close = match_close(toks, call_open)
+                z2 = z + 1
+                while toks[z2].text != '|':
+                    z2 += 1
+                first = z2 + 1
+                c = call_close - 1
             else:
                 ms_ = [z for z in range(item.body_open, item.body_close) if toks[z].kind == 'ident' and toks[z].text == 'match'
                        and toks[z - 1].text not in ('.', '::')]
@@ -899,9 +936,16 @@ class FnEmitter:
                     z += 1
                 c = match_close(toks, z)
             head = sigtxt
+            self.mut_params = []
+            if re.search(r'\basync\b', sigtxt):
+                for m_ in re.finditer(r'[\(,]\s*mut\s+(\w+)\s*:', sigtxt):
+                    self.mut_params.append(m_.group(1))
+                for name in self.mut_params:
+                    head = re.sub(r'\bmut\s+%s\s*:' % name, '%s:' % name, head, count=1)
+                    self.fire('R8', 'mut parameter %s rebound by `let mut`' % name)
             self.fire('R5', '%s %d of %s lifted into %s' % (kind_, n_, '%s::%s' % (spec.target[0], spec.target[2]), spec.qname))
             edits = self.body_edits(first, c)
-            body = '{\n    ' + apply_edits(src, toks[first].start, toks[c].end, edits) + '\n}'
+            body = '{\n    ' + ' '.join('let mut %s = %s;' % (n_, n_) for n_ in self.mut_params) + apply_edits(src, toks[first].start, toks[c].end, edits) + '\n}'
             orig = src[toks[first].start:toks[c].end]
             span = (toks[first].start, toks[c].end)
             m = re.search(r'->\s*\(\s*(\w+)\s*:', sigtxt)
